@@ -18,8 +18,47 @@ MQ = "metrique"
 TS = "metrique_timesource"
 
 
+def field_roles(F, adt_def):
+    """field name -> role label, decided by the field's type (private field names may change, their types say what they are).
+    Labels are the names the fields have today: start / self_time / timer / duration / time_source."""
+    a = F.adts.get(adt_def)
+    out = {}
+    if not a:
+        return out
+    is_guard = adt_def.endswith("TimerGuard")
+    for v in a["variants"]:
+        for f in v["fields"]:
+            ty = f["ty"]
+            if "TimeSource" in ty:
+                out[f["name"]] = "time_source"
+            elif "Instant" in ty:
+                out[f["name"]] = "start"
+            elif "MaybeGuardedDuration" in ty:
+                out[f["name"]] = "timer" if is_guard else "duration"
+            elif ty == "core::option::Option<core::time::Duration>":
+                out[f["name"]] = "self_time" if is_guard else "duration"
+    return out
+
+
+def self_adt(b):
+    if b.impl and (b.impl.get("self_head") or {}).get("adt"):
+        return b.impl["self_head"]["adt"]
+    if b.arg_count >= 1:
+        h = b.locals[1].get("head", {})
+        return h.get("adt")
+    return None
+
+
 def effects(F, b, depth=1):
     """flow-insensitive effect set of a body on its receiver: calls (name, receiver field path) and field assignments"""
+    roles = field_roles(F, self_adt(b) or "")
+    canon = lambda fs: tuple(roles.get(f, f) if k == 0 else f for k, f in enumerate(fs))
+    return {(_e[0], canon(_e[1])) if _e[0] in ("assign", "clear", "assign-through") and isinstance(_e[1], tuple) else
+            ((_e[0], _e[1], canon(_e[2])) if _e[0] == "call" and len(_e) > 2 and isinstance(_e[2], tuple) else _e)
+            for _e in _effects_raw(F, b, depth)}
+
+
+def _effects_raw(F, b, depth=1):
     pr = Prov(b, adapter_pred=lambda t: (t.get("callee") or {}).get("name") in ("as_ref", "as_mut", "deref", "deref_mut"))
     out = set()
     for c in b.calls():
@@ -32,7 +71,7 @@ def effects(F, b, depth=1):
             recv = fs[0] if fs else ()
         out.add(("call", c.name, tuple(f for f in recv)))
         for cb in closure_args(F, c):
-            for e in effects(F, cb, 0):
+            for e in _effects_raw(F, cb, 0):
                 if e[0] == "call":
                     out.add(("call-in-closure", e[1]))
     for i in b.live_blocks():
@@ -105,6 +144,10 @@ def run(ctx):
     for role, adt in guards.items():
         for nm, tr in (("stop_ref", None), ("discard", None), ("overwrite", None), ("stop", None), ("drop", "::Drop")):
             bs = find(F, MQ, adt, nm, tr)
+            if not bs and nm == "stop_ref":
+                # private helper: `&mut self -> Option<Duration>` on the guard, under whatever name
+                bs = [b for b in F.all_bodies(MQ) if b.impl and not b.impl.get("trait") and (b.impl.get("self_head") or {}).get("adt") == adt and
+                      b.d.get("output") == "core::option::Option<core::time::Duration>" and len(b.d.get("inputs") or []) == 1 and (b.d["inputs"][0]).startswith("&mut ")]
             ctx.check(len(bs) == 1, "R18.1", adt + "::" + nm + "#present", "", "operation %s of the %s guard not found" % (nm, role))
             if bs:
                 ops[(role, nm)] = bs[0]
@@ -117,8 +160,9 @@ def run(ctx):
             ctx.check(("assign", ("self_time",)) in e, "R18.1", key + "#stores-span", loc(b), "stop_ref no longer stores the measured span in self_time (a second stop would re-measure)")
             ctx.check(any(x[0] in ("call-in-closure", "call") and x[1] == "elapsed" for x in e), "R18.1", key + "#span-is-elapsed-since-start", loc(b), "stop_ref does not compute start.elapsed()")
             # idempotent: on the Some(self_time) arm nothing is written
+            span_fields = {n for n, r in field_roles(F, guards[role]).items() if r == "self_time"}
             sw = [i for i in b.live_blocks() if b.term(i)["k"] == "switch" and any(
-                s["k"] == "assign" and s["rv"]["k"] == "discr" and any(e2[0] == "f" and e2[2] == "self_time" for e2 in s["rv"]["place"].get("p", [])) for s in b.stmts(i))]
+                s["k"] == "assign" and s["rv"]["k"] == "discr" and any(e2[0] == "f" and e2[2] in span_fields for e2 in s["rv"]["place"].get("p", [])) for s in b.stmts(i))]
             okid = False
             for i in sw:
                 tg = {v: tb for v, tb in b.term(i)["targets"]}
@@ -132,7 +176,8 @@ def run(ctx):
         b = ops.get((role, "drop"))
         if b:
             key = fnkey(b)
-            sr = [c for c in b.calls() if c.name == "stop_ref"]
+            stop_body = ops.get((role, "stop_ref"))
+            sr = [c for c in b.calls() if stop_body is not None and stop_body in local_callee_bodies(F, c)]
             ok, why = exactly_once(b, [c.bb for c in sr])
             ctx.check(ok, "R18.1", key + "#stops-once", loc(b), "drop does not call stop_ref exactly once: " + why)
             adds = [c for c in b.calls() if c.name == "add_assign"]
@@ -196,11 +241,13 @@ def run(ctx):
             ctx.check(ea == eb, "R18.2", T + "TimerGuard~OwnedTimerGuard::" + nm + "#same-effects", loc(b),
                       "the owned and the borrowed timer guard disagree in `%s`: only-borrowed %s, only-owned %s" % (nm, sorted(ea - eb), sorted(eb - ea)),
                       "%d effects agree" % len(ea))
-    takes = [b for b in F.all_bodies(MQ) if b.name == "take" and b.path.startswith(T + "MaybeGuardedDuration")]
+    mgd = lambda b: b.impl and not b.impl.get("trait") and (b.impl.get("self_head") or {}).get("adt") == T + "MaybeGuardedDuration"
+    takes = [b for b in F.all_bodies(MQ) if mgd(b) and b.d.get("output") == "core::option::Option<core::time::Duration>" and (b.d.get("inputs") or [""])[0].startswith("&mut ")]
+    ctx.floor("R18.2", "accumulator take operation", len(takes), 1)
     for b in takes:
         tk = [c for c in b.calls() if c.name == "take" and "Option" in c.def_]
         ctx.check(len(tk) == 2, "R18.2", fnkey(b) + "#both-representations-take", loc(b), "MaybeGuardedDuration::take does not take() in both representations (found %d)" % len(tk))
-    sc = [b for b in F.all_bodies(MQ) if b.name == "shared_cloned"]
+    sc = [b for b in F.all_bodies(MQ) if mgd(b) and "SharedDuration" in (b.d.get("output") or "") and (b.d.get("inputs") or [""])[0].startswith("&mut ")]
     ctx.floor("R18.2", "representation switch", len(sc), 1)
     for b in sc:
         pr = Prov(b)
@@ -222,7 +269,7 @@ def run(ctx):
     for b in starts:
         pr = Prov(b)
         ins = [c for c in b.calls() if c.name == "instant" and TS in c.def_]
-        ctx.check(len(ins) == 1 and any(x[0] == "arg" and x[1] == 1 and "time_source" in x[2] for x in pr.operand(ins[0].args[0])), "R18.3", fnkey(b) + "#reads-injected-source", loc(b),
+        ctx.check(len(ins) == 1 and any(x[0] == "arg" and x[1] == 1 and any(field_roles(F, self_adt(b) or "").get(f_) == "time_source" for f_ in x[2]) for x in pr.operand(ins[0].args[0])), "R18.3", fnkey(b) + "#reads-injected-source", loc(b),
                   "the start instant does not come from the stopwatch's own time source")
     for b in lib:
         if b.name == "start_now_with_timesource" or b.name == "new_from_time_source":
@@ -234,7 +281,7 @@ def run(ctx):
             pr = Prov(b)
             rd = [c for c in b.calls() if c.name == "system_time" and TS in c.def_]
             amb2 = [c for c in b.calls() if c.name == "time_source" and TS in c.def_]
-            ctx.check(len(rd) == 1 and not amb2 and any(x[0] == "arg" and x[1] == 1 and "time_source" in x[2] for x in pr.operand(rd[0].args[0])), "R18.3", fnkey(b) + "#close-reads-captured-source", loc(b),
+            ctx.check(len(rd) == 1 and not amb2 and any(x[0] == "arg" and x[1] == 1 and any(field_roles(F, self_adt(b) or "").get(f_) == "time_source" for f_ in x[2]) for x in pr.operand(rd[0].args[0])), "R18.3", fnkey(b) + "#close-reads-captured-source", loc(b),
                       "the close-timestamp reads the ambient time source instead of the one captured at creation")
     # precedence chain in get_time_source
     g = [b for b in F.all_bodies(TS) if b.name == "get_time_source" and b.kind == "Fn"]
